@@ -645,6 +645,7 @@ func (t *Table) IndexesDescription() ([]types.GlobalSecondaryIndexDescription, [
 	lsi := []types.LocalSecondaryIndexDescription{}
 
 	for indexName, index := range t.Indexes {
+		indexName := indexName // each description needs its own copy of the name
 		schema := index.keySchema.describe()
 		count := index.count()
 
